@@ -67,7 +67,7 @@ def run_cross(ctx, res):
     K.CURRENT_OPS = K.default_ops()
     atoms = K.PLAIN + K.TRICKY
     funcs = [(a, None) for a in K.PLAIN + ["-", "+", ",", "|", "[]", "{}", ".", "$VAR", ":-", "\\+", "=", "é", "a b", "", "A", "*", "1", "'", "\\"]]
-    n = ctx.scale(600, 30000)
+    n = ctx.scale(500, 30000)
     cases, seen = [], set()
     while len(cases) < n:
         t = K.gen_term(rng, rng.choice([1, 2, 3, 5, 8, 12]), atoms, funcs)
@@ -168,13 +168,13 @@ def gen_cases(ctx):
                 if t is not None]
     prefix = ["-", "+", "\\", "\\+", ":-", "?-"]
     infix = ["+", "-", "*", "=", ":", ",", "=..", "-->", "is", "mod", "**", "^", "->", ";", "|", ":-", "rdiv", "<", "//", "/", "@<", "\\="]
-    pool = K.op_term_pool(rng, ctx.scale(3500, 80000), prefix, infix, operands)
+    pool = K.op_term_pool(rng, ctx.scale(2500, 80000), prefix, infix, operands)
     atoms = K.PLAIN + K.TRICKY
     funcs = [(a, None) for a in ["f", "g", "-", "+", "*", ",", "|", ":-", "\\+", "=", "is", "mod", "^", "**", "-->", ";", "->", ":", "\\", "?-",
                                  "$VAR", "{}", "[]", ".", "é", "a b", ""]] + [("-", 1), ("-", 2), ("{}", 1), (",", 2)]
     rnd = []
     ex = leaves_extra()
-    for _ in range(ctx.scale(2500, 60000)):
+    for _ in range(ctx.scale(2000, 60000)):
         rnd.append(K.gen_term(rng, rng.choice([2, 3, 4, 6, 8, 12]), atoms, funcs, leaves_extra=ex))
     return K.dedupe_terms(fixed + pool + rnd), ops, len(fixed), len(operands)
 
@@ -249,7 +249,7 @@ def run_userops(ctx, res):
     ntab = ctx.scale(10, 200)
     some_operands = None
     for g in range(ntab):
-        decls = gen_table(rng)
+        decls = gen_table(rng) if g else [(900, "fx", "==="), (300, "xf", "++"), (500, "yf", "bar"), (200, "xfy", "~>"), (700, "xfx", "foo")]
         if not decls:
             decls = [(700, "xfx", "===")]
         ops = {k: list(v) for k, v in base.items()}
@@ -268,10 +268,15 @@ def run_userops(ctx, res):
         K.CURRENT_OPS = ops
         pool = K.dedupe_terms(K.op_term_pool(rng, ctx.scale(400, 1200), pre, inf, operands, post))
         rng.shuffle(pool)
+        if g == 0:
+            pool = [("cmp", "===", [("cmp", "++", [("atom", "*")])]), ("cmp", "===", [("cmp", "foo", [("atom", "-"), ("atom", "a")])]),
+                    ("cmp", "bar", [("cmp", "++", [("atom", "a")])]), ("cmp", "~>", [("cmp", "~>", [("atom", "a"), ("atom", "b")]), ("atom", "c")]),
+                    ("cmp", "foo", [("cmp", "foo", [("atom", "a"), ("atom", "b")]), ("atom", "c")]), ("cmp", "-", [("cmp", "++", [("int", 1)])]),
+                    ("cmp", "++", [("cmp", "-", [("int", 1)])]), ("cmp", "++", [("int", -1)]), ("cmp", "===", [("atom", "===")])] + pool
         cases += [(t, g) for t in pool[:ctx.scale(420, 1500)]]
     total = 0
     for label, opts, mode in OPTSETS[:3]:
-        n, nf, _ = K.roundtrip_cases(ctx, res, cases, opts, label + "+userops", "uo_" + label, groups, gops, mode)
+        n, nf, _ = K.roundtrip_cases(ctx, res, cases, opts, label, "uo_" + label, groups, gops, mode)
         total += n
         res["distribution"].setdefault("user_operator_tables", {"tables": ntab, "terms": len(cases)})["failing_before_shrinking_" + label] = nf
     res["nontrivial"] += len(cases)
@@ -294,7 +299,7 @@ def run_streams(ctx, res, passed):
             f = os.path.join(sdir, "h%d_%d.pl" % (hi, j))
             tl = "[%s]" % ",".join(K.pl_text(t) for t in ts)
             jid = "s%d_%d" % (hi, j)
-            jobs.append({"id": jid, "consult": K.RT_PROG, "queries": ["c55_wfile('%s', %s, %s)." % (f, tl, how), "c55_rfile('%s', %s, Rs)." % (f, tl)],
+            jobs.append({"id": jid, "consult": K.RT_PROG, "queries": ["c55_wfile('%s', %s, %s)." % (f, tl, how), "c55_rfile('%s', %s, %s, Rs)." % (f, tl, "nv" if how == "writeq" else "plain")],
                          "timeout_ms": 60000, "fresh": False})
             lay[jid] = (how, ts, f)
     out = core.vrun_query(ctx.prop, jobs, tag="streams")
